@@ -107,6 +107,8 @@ def run(prog, tier):
     # ---- load-index-site ---------------------------------------------------------------------------
     n = indexsites.rule(prog, res, scope={f.usr for f in load}, rule_name='load-index-site')
     res.minimum('index sites on the load path', n, 28)
+    import p_c13 as _c13
+    _c13.copy_bound_rule(prog, res, scope={f.usr for f in load}, rule='load-copy-bound')
     # ---- recursion -----------------------------------------------------------------------------------
     rec = indexsites.recursion_sites(prog)
     want = ['ezc3d::c3d::readParam', 'ezc3d::c3d::readParam', 'ezc3d::c3d::_readMatrix', 'ezc3d::c3d::_dispatchMatrix']
